@@ -8,5 +8,6 @@ CONSTANTS
   MaxQ = 2
   FIX_ERR = FALSE
   FIX_RACE = TRUE
+  FIX_RDCLOSED = TRUE
 PROPERTY Returns
 CHECK_DEADLOCK FALSE
